@@ -41,6 +41,8 @@ def ops_for(fn):
         ops += one('set_cwd') + one('abs') + ['abs %s' % s for s in ('~', '~/x', '$HOME/y', 'file:///q', '..', '../../..', './a/./b/..')]
     if 'dir' in f or 'file' in f or 'path' in f or 'entries' in f or 'exists' in f or 'clone_entr' in f:
         ops += one('is_dir') + one('is_file') + one('is_symlink') + one('exists') + one('paths') + one('all_paths') + one('dirs') + one('files')
+    if f in ('process', 'next', 'into_iter', 'cache', 'sort', 'dirs_first', 'files_first', '_split', '_sort', 'follow', 'new', 'memfs_entries', 'lister_new', 'lister_next', '_clone_entries'):
+        ops += ['entries %s %s' % (s, fl) for s in ('/', '/a', '/t', '/l', '/ld', '/a/b/f') for fl in ('s', 's,c', 's,c,f', 's,c,d', 's,c,m1', 's,F', 's,F,c', 'D', 'I,c', 's,m1,M1', 's,pf', 's,c,pb', 's,F,m1', 's,M0')]
     if not ops:
         ops = two('copy')[:60] + two('move_p')[:60] + one('remove_all') + one('chmod', ' 700')
     return ops
